@@ -70,6 +70,24 @@ def esc1(ctx, c):
         if (what, "ok") not in seen:
             seen.add((what, "ok"))
             c.ok("%s:%s" % (entry, what), "explicit raises escaping this phase: %s" % sorted({e for e, _ in esc.get(what, ())}), nontrivial=True)
+    # the command line: whatever a call made by assembler.main can raise explicitly is caught where the call is made
+    for mq in [q for q in cg.sites if q.endswith(":main") and q.split(":")[0] in ("assembler",)]:
+        fm = cg.funcs.get(mq)
+        for kind, what, stack, node in cg.sites.get(mq, []):
+            if kind not in ("call", "call?") or what == entry or not what.startswith("Program."):
+                continue        # only the methods of the program being assembled: constructors called with literals (NumericValue(0x02)) raise on other arguments only
+            for exc, origin in sorted(esc.get(what, ())):
+                if any(cg.catches(h, exc) for h in stack):
+                    continue
+                if exc in ("SystemExit",):
+                    continue
+                site_ = "assembler.main:%s" % what
+                if kind == "call?" or (exc, origin) in cg.weak.get(what, ()):
+                    c.undecided(site_, "%s may escape (call resolved by method name only)" % exc, "", repo.loc(fm, node))
+                else:
+                    c.finding(site_, "%s raised at %s is not caught where main calls %s" % (exc, origin, what.split(".")[-1]),
+                              "assembler.main calls %s outside any handler for %s (raised at %s): the diagnostic ends the command with a traceback instead of the message and exit status "
+                              "that the handlers around Program.process give" % (what, exc, origin), repo.loc(fm, node))
     final = sorted({e for e, _ in esc[entry]} - ALLOWED - {k.split(" via ")[0] for k in TRIAGED})
     c.check(not [k for k in seen if isinstance(k, str) and k not in TRIAGED], entry + ":total", "only ParseError / TranslationError escape",
             "also escaping: %s" % final, "exceptions other than ParseError/TranslationError escape Program.process: %s" % final, "cocoasm/program.py")
